@@ -384,7 +384,31 @@ func runAliasMode(seed int64, n int, tr *transcript) {
 					}
 					b2 := newCallerBuf(r, key2, r.Intn(3))
 					ka, kb := b.key(), b2.key()
-					switch r.Intn(3) {
+					switch r.Intn(4) {
+					case 3: // a point range: both bounds spell one stored key (two buffers, or one buffer passed twice)
+						var stored [][]byte
+						safely(func() string {
+							for k := range raw.All() {
+								stored = append(stored, append([]byte{}, k...))
+								if len(stored) >= 8 {
+									break
+								}
+							}
+							return ""
+						})
+						if len(stored) > 0 {
+							key = stored[r.Intn(len(stored))]
+							key2 = key
+							lit, lit2 = hexLit(key), hexLit(key)
+							b = newCallerBuf(r, key, r.Intn(3))
+							b2 = newCallerBuf(r, key, r.Intn(3))
+							ka, kb = b.key(), b2.key()
+							if r.Intn(2) == 0 {
+								b2 = b
+								kb = ka
+							}
+							tr.stats["alias-range-point-bounds"]++
+						}
 					case 1: // both bounds cut from one request buffer, back to back
 						req := append(append([]byte{}, key...), key2...)
 						b = &callerBuf{arr: req, off: 0, n: len(key), capLimit: len(req), snapshot: append([]byte{}, req...)}
